@@ -104,6 +104,7 @@ func initProperties() {
 			Decides: "option plumbing into the native FSM (FLAGSYNC: every conv.Option that affects j2t reaches its own flag bit, flags recomputed after every options write), the native status is tested and handled (NATIVERET), and for the portable converter (config P): every JSON-kind case of doRecurse ends in a return (CASEEXIT), the portable code reads the same options the flag table maps (OPTAGREE), no error dropped (DROPERR), thrift type switch exhaustive (KINDEXH).",
 			NotDec:  "everything inside the native FSM (opaque machine code): number/escape handling, resumption after ERR_OOM_*, buffer-capacity independence; value equality of the output.",
 			Uses: uses(
+				use("CTWINLIT", "the Go-built key trie / hash map is probed by the native code with the same constants", nil),
 				use("PARSEBASE", "text integers (map keys, quoted numbers) are decimal", nil),
 				use("GROWCAP", "the output buffer is re-allocated with room for what it holds", nil),
 				use("NATIVEROW", "each native stub row is built from its own routine's constants", nil),
@@ -471,6 +472,7 @@ func initProperties() {
 			Decides: "every name map that is filled is built (BUILDPAIR: without Build every key lookup returns nil), trie/hash Set and Get derive slots through the same helper (SEQAGREE), descriptors are not written after parsing (DESCIMMUT).",
 			NotDec:  "fidelity to the IDL, default values, requiredness under options, the native trie_get/hm_get twins, adversarial keys.",
 			Uses: uses(
+				use("INPLACEFILTER", "selecting methods does not overwrite the list still being searched", nil),
 				use("BITMAPLEN", "the requires bitmap of a struct with sparse ids keeps every bit", nil),
 				use("RECINTARG", "key and value of a map type are parsed at the same depth", thriftPkg),
 				use("PUBLISHCOMPLETE", "a descriptor is complete when it enters the compile cache", thriftPkg),
@@ -562,6 +564,7 @@ func initProperties() {
 			Decides: "every native stub is bound in all three SIMD flavours with identical key sets and each flavour loads its own text (STUBTABLE), native and portable files are selected by exactly complementary build constraints (TAGPARTITION), the portable converter reads the options the native flags carry (OPTAGREE) and rejects kind mismatches on every path (CASEEXIT), native skip failure is an error like Go skip (NATIVERET).",
 			NotDec:  "agreement of outputs, text-encoder exactness (opaque blob).",
 			Uses: uses(
+				use("CTWINLIT", "Go and native halves of the field-name lookup use the same constants", nil),
 				use("NATIVEROW", "each native stub row is built from its own routine's constants", nil),
 				use("PARSEBASE", "the portable converter reads text integers in base 10 like the native one", nil),
 				use("TRUNCALLPATHS", "the native field cache is emptied on every success exit of the fallback handler", nil),
